@@ -14,6 +14,9 @@ type MutexCore struct {
 func (m *MutexCore) free() bool { return !m.locked }
 
 //go:norace
+func (m *MutexCore) isLocked() bool { return m.locked }
+
+//go:norace
 func (m *MutexCore) setLocked(v bool) { m.locked = v }
 
 //go:norace
@@ -64,6 +67,15 @@ func (m *MutexCore) TryLock() bool {
 // goroutine can be preempted right after an unlock, which matters for code
 // that goes on to read shared state without the lock).
 func (m *MutexCore) Unlock() {
+	if s := Active(); s != nil && !m.isLocked() {
+		if s.Ended() {
+			// a task that was blocked in Lock is being unwound at the end of the
+			// run and one of its deferred Unlock calls has nothing to release
+			return
+		}
+		// the real runtime aborts the program here; report it as a panic of the task
+		panic("sync: unlock of unlocked mutex")
+	}
 	m.setLocked(false)
 	m.real.Unlock()
 	if s := Active(); s != nil && s.Self() != nil && !s.Ended() {
